@@ -76,7 +76,7 @@ func Main() {
 		c.Dir = *dir
 		spec.Run(c)
 		if c.CurFile != "" {
-			os.Remove(c.CurFile)
+			os.Remove(c.CurFile) // finished normally: no case is running any more
 		}
 		if err := c.Finish(*out); err != nil {
 			fmt.Println("cannot write result:", err)
